@@ -99,10 +99,24 @@ private:
     }
   }
 
-  inline T_Callback get_raw_value() const noexcept { return callback; }
+  // A registration ends with the sandbox incarnation it was made in. An owner
+  // that outlives destroy_sandbox is then like an unregistered one: it must not
+  // claim to be registered, nor hand out its old entry point - in the next
+  // incarnation that entry point may belong to another function
+  inline bool registration_ended_with_sandbox() const noexcept
+  {
+    return callback != nullptr &&
+           !sandbox->is_callback_incarnation_current(incarnation);
+  }
+
+  inline T_Callback get_raw_value() const noexcept
+  {
+    return registration_ended_with_sandbox() ? nullptr : callback;
+  }
   inline T_Trampoline get_raw_sandbox_value() const noexcept
   {
-    return callback_trampoline;
+    return registration_ended_with_sandbox() ? T_Trampoline(0)
+                                             : callback_trampoline;
   }
 
   // Keep constructor private as only rlbox_sandbox should be able to create
